@@ -15,7 +15,10 @@ META = {
                   "their languages under re.match / re.search semantics are proved equal (z3 regex theory, unbounded string length) "
                   "to 'classes[0-9]*\\.dex' resp. the same language; get_files/get_file/get_dex are executed on every behaviour of "
                   "an opaque zip reader (returns bytes / raises KeyError). Bounded: the filter/order/multidex logic is run on all "
-                  "name lists of length <= 4 over a pool of 9 tricky names with a stub zip reader.",
+                  "name lists of length <= 4 over a pool of 9 tricky names with a stub zip reader; real archives written by CPython's "
+                  "zipfile (stored / deflated, ASCII and non-ASCII names, empty and 70 kB entries, extra fields) are opened with the "
+                  "real APK constructor (apkInspector reader) and every entry's name and content, the DEX listing, get_dex and "
+                  "is_multidex are compared with what was written.",
     "trusted": ["apkInspector ZipEntry.namelist()/read(): names are the archive entries, read returns the uncompressed content, "
                 "KeyError for a missing name", "CPython re implements the regular language of its pattern (translation in pyvc/regex.py; "
                 "\\d taken as ASCII digits)"],
@@ -139,3 +142,62 @@ def dex_listing(U):
 
 
 dex_listing.enumerate_inputs = lambda tier, **p: _enum(tier)
+
+
+# ------------------------------------------------------------------------------------------------
+# Bounded (model-based): real archives written by CPython's zipfile (independent writer) and opened through the real APK
+# constructor (apkInspector reader, skip_analysis): stored and deflated entries, ASCII and non-ASCII names, empty entries, entries
+# with an extra field, nested directories, DEX entries in every position.
+import io  # noqa: E402
+import random  # noqa: E402
+import zipfile  # noqa: E402
+
+_NAMES = ["AndroidManifest.xml", "classes.dex", "classes2.dex", "classes10.dex", "assets/classes.dex", "res/raw/übersicht.txt",
+          "assets/日本語.bin", "lib/arm64-v8a/libx.so", "META-INF/MANIFEST.MF", "resources.arsc", "classes.dex.bak", "a", "assets/é/ü.dat",
+          "classes0dex", "Classes.dex", "kotlin/a.kotlin_builtins"]
+
+
+@unit("C34", covers=[(APKF, "APK.__init__"), (APKF, "APK.get_files"), (APKF, "APK.get_file"), (APKF, "APK.get_dex_names"),
+                     (APKF, "APK.get_all_dex"), (APKF, "APK.get_dex"), (APKF, "APK.is_multidex")], level="bounded", samples=120,
+      note="seeded random archives written with zipfile (1..8 entries from a 16-name pool incl. non-ASCII names; stored or deflated; "
+           "empty / short / 70 kB contents; optional extra field) opened with the real APK(raw=True, skip_analysis=True)")
+def real_archives(U):
+    m = U.mod(APKF)
+    seed = U.int("seed", 0, 1 << 30)
+    rng = random.Random(seed)
+    names = rng.sample(_NAMES, rng.randint(1, 8))
+    entries = []
+    buf = io.BytesIO()
+    with zipfile.ZipFile(buf, "w") as z:
+        for n in names:
+            content = rng.choice([b"", b"x", n.encode("utf-8") * 3, bytes(rng.randrange(256) for _ in range(300)),
+                                  bytes([rng.randrange(4)]) * 70000])
+            zi = zipfile.ZipInfo(n)
+            zi.compress_type = rng.choice([zipfile.ZIP_STORED, zipfile.ZIP_DEFLATED])
+            if rng.random() < 0.3:
+                zi.extra = b"\xfe\xca\x04\x00abcd"
+            z.writestr(zi, content)
+            entries.append((n, content, zi.compress_type))
+    data = buf.getvalue()
+    o = U.call(lambda: m.APK(data, raw=True, skip_analysis=True))
+    U.ensures("the archive opens", o.ok, exc=repr(o.exc)[:200], names=names)
+    if not o.ok:
+        return
+    a = o.value
+    U.ensures("get_files lists exactly the archive's entries", sorted(a.get_files()) == sorted(names), got=sorted(a.get_files()))
+    for n, content, ct in entries:
+        g = U.call(a.get_file, n)
+        U.ensures("get_file returns the entry's content (stored or deflated, any name)", g.ok and g.value == content,
+                  name=n, stored=ct == zipfile.ZIP_STORED, got=(g.value[:24] if g.ok else repr(g.exc)[:80]), want=content[:24])
+    miss = U.call(a.get_file, "no/such/entry")
+    U.ensures("a name that is not in the archive raises FileNotPresent", miss.raised(m.FileNotPresent), got=repr(miss.exc or miss.value)[:80])
+    want_dex = [n for n in names if _is_dex(n)]
+    dn = U.call(lambda: list(a.get_dex_names()))
+    U.ensures("DEX listing = root-level classes<digits>.dex entries", dn.ok and sorted(dn.value) == sorted(want_dex), got=dn.value, names=names)
+    ad = U.call(lambda: sorted(a.get_all_dex()))
+    U.ensures("get_all_dex yields their contents", ad.ok and ad.value == sorted(c for n, c, _ in entries if _is_dex(n)))
+    md = U.call(a.is_multidex)
+    U.ensures("is_multidex iff more than one DEX entry", md.ok and bool(md.value) == (len(want_dex) > 1), got=md.value)
+    gd = U.call(a.get_dex)
+    want0 = dict((n, c) for n, c, _ in entries).get("classes.dex", b"")
+    U.ensures("get_dex is classes.dex or empty", gd.ok and gd.value == want0)
